@@ -8,7 +8,7 @@ cd "$(dirname "$0")"
 ID=${1:?property id}; MODE=${2:-quick}
 id=$(echo "$ID" | tr A-Z a-z)
 [ -d mc/props/$id ] || { echo "no check for $ID"; exit 2; }
-W=$VERIF_WORK/$ID; mkdir -p "$W" evidence
+W=$VERIF_WORK/$ID; EVD=${VERIF_EVIDENCE_DIR:-$VERIF_ROOT/evidence}; mkdir -p "$W" "$EVD"
 cp -f $VERIF_REPO/go.sum mc/go.sum 2>/dev/null
 GROUPS_=$(cat mc/props/$id/OVERLAYS 2>/dev/null | tr '\n' ' ')
 if [ -x mc/props/$id/pre.sh ]; then
@@ -21,8 +21,8 @@ python3 mc/tools/mkoverlay.py "$W/overlay.json" $GROUPS_ ${VERIF_EXTRA_OVERLAY:-
   echo "[$ID] BUILD FAILED (harness could not be built against the current /repo tree)"; tail -30 "$W/build.log"; exit 2; }
 case "$MODE" in
   quick|thorough)
-    rm -f evidence/$ID.json
-    VERIF_TIER=$MODE exec "$W/$id.bin" -tier "$MODE" -evidence "$VERIF_ROOT/evidence/$ID.json" "${@:3}" ;;
+    rm -f "$EVD/$ID.json"
+    VERIF_TIER=$MODE exec "$W/$id.bin" -tier "$MODE" -evidence "$EVD/$ID.json" "${@:3}" ;;
   replay)
     exec "$W/$id.bin" -replay "${3:?replay file}" ;;
   *) echo "unknown mode $MODE"; exit 2 ;;
